@@ -53,7 +53,7 @@ def make_env(n: int, comp_name: str, source: Callable, gap: Callable, budget: in
     """An ICG_Gym whose initially known coalitions are the minimal information plus `initial_extra` ids."""
     from incomplete_cooperative.coalitions import minimal_game_coalitions
     from incomplete_cooperative.icg_gym import ICG_Gym
-    g = games.new_game(n, games.computer(comp_name))
+    g = games.new_game(n, games.computer(comp_name) if comp_name else None)
     initially = list(minimal_game_coalitions(g)) + games.coalitions(list(initial_extra))
     return ICG_Gym(g, source, initially, gap, done_after_n_actions=budget)
 
@@ -89,11 +89,13 @@ def independent_normalized(v: np.ndarray, n: int) -> np.ndarray | None:
 
 def check_env(sim: Sim, env: Any, n: int, comp_name: str, gap: Callable, hidden: np.ndarray,
               revealed: list[int], steps: int, budget: int | None, class_matched: bool, exact: bool,
-              P: str, ret: tuple | None = None, last_action: int | None = None) -> None:
-    """The C09 oracle: every clause about the environment's public outputs."""
+              P: str, ret: tuple | None = None, last_action: int | None = None, extras: Sequence[int] = ()) -> None:
+    """The C09 oracle: every clause about the environment's public outputs.
+
+    `extras`: coalitions the environment was told to know initially, beyond the minimal information."""
     N = 2 ** n
-    minimal = games.minimal_ids(n)
-    explorable = games.explorable_ids(n)
+    minimal = games.minimal_ids(n) + [e for e in extras]
+    explorable = [e for e in games.explorable_ids(n) if e not in set(extras)]
     ctx = {"n": n, "computer": comp_name, "revealed_actions": list(revealed), "steps": steps}
     exp_known = set(minimal) | {explorable[a] for a in revealed}
     known = np.array(env.incomplete_game.are_values_known())
